@@ -429,20 +429,21 @@ class Check(core.PropertyCheck):
         gz1 = E("gz", P1)
         wire = {("gzip", gz1, False), ("gzip", E("gz", P1, "trunc"), False), ("-", P1, False), ("gzip", J1, True),
                 ("unknown", P1, False)}
-        fcalls = {("enc", "gzip", P1), ("dec", "gzip", E("gz", P1, "alt")), ("dec", "br", gz1)}
+        fcalls = {("enc", "gzip", P1), ("dec", "gzip", E("gz", P1, "alt"))}
         margs = {"gzip", "unknown"}
         sargs = {P0, P1}
         if tier != "quick":
             wire |= {("gzip", E("zl", P1), False), ("br", E("br", P1), False), ("GZip", E("gz", P1, "alt"), False),
                      ("deflate", E("zl", P1, "raw"), False), ("gzip", P0, False), ("zstd", E("zs", P2), False),
                      ("utf8", P1, False), ("deflateraw", E("zl", P1), False)}
-            fcalls |= {("enc", "GZip", P1), ("enc", "deflateraw", P1), ("dec", "deflate", E("zl", P1)),
+            fcalls |= {("dec", "br", gz1), ("enc", "GZip", P1), ("enc", "deflateraw", P1), ("dec", "deflate", E("zl", P1)),
                        ("dec", "gzip", E("gz", P1, "trunc")), ("enc", "br", P2), ("dec", "none", P1)}
             margs |= {"br", "GZip", "zstd", "utf8", "identity"}
             sargs |= {P2, gz1}
         return {"NMsg": 2, "MaxDepth": 2, "CK": ck, "RF": rf, "LC": lc,
                 "WireSet": frozenset(wire), "SetArgs": frozenset(sargs), "MCodings": frozenset(margs),
-                "FCalls": frozenset(fcalls), "MaxOps": 4}
+                "FCalls": frozenset(fcalls), "MaxOps": 4,
+                "GetStricts": frozenset({True}) if tier == "quick" else frozenset({True, False})}
 
     def setup(self, ctx):
         # the concretisation must be injective on the universe (ids are equalities of byte strings)
@@ -491,7 +492,7 @@ class Check(core.PropertyCheck):
     def scenarios(self, ctx, models):
         g = models[0].graph
         if ctx.quick:
-            behs = g.random_walks(ctx.rng, 2500, 6)
+            behs = g.random_walks(ctx.rng, 2000, 6)
         else:
             behs = g.edge_cover(ctx.rng, max_len=8, tail=0)
             ctx.rng.shuffle(behs)
